@@ -12,6 +12,6 @@ Extraction "model.ml"
   run_history test_number_status hist_base
   fprint_ops run_fprint hangs_pinned span fwd_list eff_hi eff_lo end_of
   format string_of exact_of with_significant hist_base
-  find_model find_spec text_of
+  find_model find_spec text_of step hi lo dlen
   sprint swrite with_start with_end utf8_all positions_of shown_of asc_b
   run_hist segments c11_check c11_check_words between upto end_of.
